@@ -183,7 +183,13 @@ def mps_tables(fb, rep):
             got = [norm_set(v) for v in sens_tab.get(ch, [])]
             rep.check(sorted(got) == sorted(w), 'R12.1', '%s|MPS-sense-arm|%s' % (tag, ch), rr.where(), '%s -> %s' % (ch, got), 'sense %s sets %s, expected %s' % (ch, got, w))
         # bound indicators
-        wb = set(t for t in wl if t in ('FR', 'FX', 'LO', 'MI', 'UP', 'PL', 'BV', 'LI', 'UI'))
+        # bound indicators: the indicator argument of every MPSwriteRecord call that writes a BOUND record
+        wb = set()
+        for n in wm.nodes:
+            if n.k == 'CallExpr' and n.short == 'MPSwriteRecord':
+                a = [render(x) for x in n.args()]
+                if len(a) >= 3 and a[2] == '"BOUND"' and re.match(r'^"[A-Z]{2}"$', a[1]):
+                    wb.add(a[1].strip('"'))
         rb = one_in(fb, base, 'MPSreadBounds')
         bc = case_chars(rb, lambda c: 'field1()' in c)
         expect = {'LO': {'lower_w': 'val'}, 'UP': {'upper_w': 'val'}, 'FX': {'lower_w': 'val', 'upper_w': 'val'}, 'FR': {'lower_w': '-infinity', 'upper_w': 'infinity'}, 'MI': {'lower_w': '-infinity'}}
